@@ -20,8 +20,10 @@ import (
 	aptypes "github.com/elys-network/elys/x/assetprofile/types"
 	burnertypes "github.com/elys-network/elys/x/burner/types"
 	epochstypes "github.com/elys-network/elys/x/epochs/types"
+	mctypes "github.com/elys-network/elys/x/masterchef/types"
 	oracletypes "github.com/elys-network/elys/x/oracle/types"
 	perptypes "github.com/elys-network/elys/x/perpetual/types"
+	sstypes "github.com/elys-network/elys/x/stablestake/types"
 	toktypes "github.com/elys-network/elys/x/tokenomics/types"
 	tstypes "github.com/elys-network/elys/x/tradeshield/types"
 )
@@ -113,6 +115,7 @@ func runScn(t *testing.T, seed int64, n int, out *Out) {
 			continue
 		}
 		w := NewWorld(t, seed*100+int64(id), 7)
+		w.NoVaultBond = strings.HasSuffix(name, "-fresh-vault")
 		std := w.SeedStandard()
 		r0 := w.Block(5*time.Second, nil)
 		if r0.Err != nil || r0.Panicked {
@@ -637,5 +640,34 @@ func init() {
 				return
 			}
 		}
+	}
+}
+
+func init() {
+	// C18: a chain on which nobody has deposited into the lending vault yet. Masterchef knows the vault as reward pool 32767 from its first
+	// end-blocker on; anybody may fund an external incentive for it (governance has listed the reward denom). The blocks of the incentive
+	// period distribute to a pool whose share denom has no committed amount at all — then the first depositor arrives.
+	scenarios["c18-external-incentive-before-first-bond-fresh-vault"] = func(sc *Scn) {
+		w := sc.w
+		w.Seed(func(ctx sdk.Context) {
+			mcp := w.App.MasterchefKeeper.GetParams(ctx)
+			mcp.SupportedRewardDenoms = []*mctypes.SupportedRewardDenom{{Denom: "uatom", MinAmount: math.NewInt(1)}, {Denom: sc.std.USDC, MinAmount: math.NewInt(1)}}
+			w.App.MasterchefKeeper.SetParams(ctx, mcp)
+		})
+		sc.Empty(5 * time.Second)
+		u := w.Accts[3]
+		from := w.App.LastBlockHeight() + 3
+		for _, rd := range []string{sc.std.USDC, "uatom"} {
+			sc.Tx("mc.externalIncentive", u, J{"pool": 32767, "from": from, "to": from + 8, "perBlock": "100", "denom": rd},
+				&mctypes.MsgAddExternalIncentive{Sender: u.Addr.String(), RewardDenom: rd, PoolId: 32767, FromBlock: from, ToBlock: from + 8, AmountPerBlock: math.NewInt(100)})
+		}
+		for i := 0; i < 4; i++ {
+			sc.Empty(5 * time.Second)
+		}
+		sc.Tx("ss.bond", w.Accts[4], J{"amt": "1000000"}, &sstypes.MsgBond{Creator: w.Accts[4].Addr.String(), Amount: math.NewInt(1_000_000)})
+		for i := 0; i < 4; i++ {
+			sc.Empty(5 * time.Second)
+		}
+		sc.Tx("mc.claim", w.Accts[4], J{"pools": []uint64{32767}}, &mctypes.MsgClaimRewards{Sender: w.Accts[4].Addr.String(), PoolIds: []uint64{32767}})
 	}
 }
